@@ -1,10 +1,18 @@
 """C17 — fragmented messages read like contiguous ones (mptcore/message/*.c, array/array_message.c)."""
-import itertools
+import itertools, os, zlib
 from vcheck import DiffProperty, ASAN_ENV
+
+# Patch proposed under docs/ that is NOT in /repo yet.  The model (coq/C17/MessageModel.v m_memcpy) describes the code
+# WITH the patch; while the constant is False the generator and the corpus leave out exactly the cases on which the
+# patched and the unpatched code differ (mpt_memcpy with a zero part count on either side and len > 0).
+# After committing docs/C17_memcpy_noparts.diff in /repo set it to True - nothing else.
+#   replay on the unpatched tree: ./check C17 --replay docs/C17_replay_memcpy_noparts.json  (I `C:0:ee`, S `C:-1:ee`)
+PATCHED_MEMCPY_NOPARTS = True      # committed in /repo: ef03c82
+SSIZE_MAX = 2 ** 63 - 1
 
 ALPHA = [0x00, 0x20, 0x27, 0x22, 0x5c, 0x41, 0x0a]
 ARITY = {"set": 1, "read": 2, "len": 0, "argv": 1, "chr": 1, "rchr": 1, "fcn": 1, "rfcn": 1, "str": 1, "rstr": 1,
-         "tok": 3, "cpy": 2, "app": 1, "get": 6, "amsg": 1}
+         "tok": 3, "cpy": 2, "app": 1, "get": 6, "amsg": 1, "appl": 2, "amsgl": 2, "amsgle": 2, "amsgn": 0, "null": 1, "rbig": 3}
 MUTATING = ("set", "read", "argv", "get")
 TOKS = [("N", "N", "N"), ("N", "N", "2722"), ("N", "41", "N"), ("N", "41", "2722"), ("N", "5c", "27"),
         ("20", "N", "N"), ("200a", "N", "2722"), ("20", "41", "2722"), ("41", "N", "27"), ("-", "41", "N"),
@@ -38,7 +46,7 @@ def cut(s, comp):
     return out
 
 
-def static_ops(n):
+def static_ops(n, noparts=False, extra=True):
     ops = [["len"]]
     for b in ALPHA + [0x42]:
         ops.append(["chr", str(b)])
@@ -54,11 +62,36 @@ def static_ops(n):
     dests = ["n", str(n), "0,%d,0,%d" % (n // 2, n - n // 2 + 1), "1,1,0,1", str(n + 2)]
     for ln in sorted(set([-1, 0, 1, n, n + 1])):
         for d in dests:
+            if ln > 0 and (noparts or d == "n") and not PATCHED_MEMCPY_NOPARTS:
+                continue        # zero part count and a positive length: see PATCHED_MEMCPY_NOPARTS
             ops.append(["cpy", str(ln), d])
     ops.append(["app", "-"])
     ops.append(["app", "4242"])
     for s in SEPS:
         ops.append(["amsg", str(s)])
+    # arrays that refuse: typed buffer (t), the (k+1)-th allocation fails
+    for pre, lim in (("5151", "t"), ("-", "t"), ("5151", "0"), ("5151", "1"), ("-", "1"), ("5151", "2"), ("5151", "3"), ("-", "N")):
+        ops.append(["appl", pre, lim])
+    # (amsgl: the caller's array holds a typed result of an earlier call, amsgle: it has no buffer yet)
+    for k in range(0, 2 * n + 4):
+        ops.append(["amsgle" if k % 2 else "amsgl", "32", str(k)])
+    for s, ks in ((0, (1, 2, 3, 2 * n + 2)), (65, (0, 1, "N"))):
+        for k in ks:
+            ops.append(["amsgl" if k == 1 else "amsgle", str(s), str(k)])
+    ops.append(["amsgn"])
+    # missing arguments (the same for every message: in one case out of eight)
+    if extra:
+        for k in range(11):
+            ops.append(["null", str(k)])
+    # backward searches whose position is (not) representable: a leading part of SSIZE_MAX - d bytes
+    for d in range(0, n + 2):
+        ops.append(["rbig", "chr", "65", str(SSIZE_MAX - d)])
+    for i, (kind, arg) in enumerate((("chr", "32"), ("chr", "0"), ("fcn", "0"), ("fcn", "1"), ("fcn", "2"), ("str", "2741"),
+                                     ("str", "0a20"), ("str", "-"))):
+        ops.append(["rbig", kind, arg, str(SSIZE_MAX - ((n + 1) // 2 if i % 2 else 0))])
+        if extra:
+            ops.append(["rbig", kind, arg, str(SSIZE_MAX - (0 if i % 2 else (n + 1) // 2))])
+            ops.append(["rbig", kind, arg, "0"])
     return ops
 
 
@@ -70,6 +103,12 @@ def mutating_ops(F, n):
     ops += [["set", f], ["read", str(max(1, n // 2)), "0"], ["read", str(n), "1"]]
     for s in SEPS + [39]:
         ops += [["set", f], ["argv", str(s)], ["len"], ["argv", str(s)], ["read", "1", "1"]]
+    if len(F) == 1:
+        # the usual single-part message: no continuation array at all (cont = NULL)
+        g = "F" + f[1:]
+        for s in SEPS:
+            ops += [["set", g], ["argv", str(s)], ["len"], ["read", "1", "1"], ["argv", str(s)]]
+        ops += [["set", g], ["read", str(n + 1), "1"], ["len"], ["set", g], ["amsg", "32"], ["app", "4242"]]
     return ops
 
 
@@ -79,8 +118,9 @@ def flat(ops):
 
 def full_case(F):
     n = sum(len(f) for f in F) if F is not None else 0
-    return " ".join([ftok(F)] + flat(static_ops(n)) + (flat(mutating_ops(F, n)) if F is not None else
-                                                       ["read", "1", "1", "argv", "32", "len"]))
+    extra = F is None or zlib.crc32(ftok(F).encode()) % 8 == 0
+    return " ".join([ftok(F)] + flat(static_ops(n, F is None, extra)) + (flat(mutating_ops(F, n)) if F is not None else
+                                                                 ["read", "1", "1", "argv", "32", "len"]))
 
 
 def get_cases(maxcap):
@@ -108,42 +148,84 @@ class C17(DiffProperty):
     driver = "c17_driver.ml"
     harness_src = "c17_message.c"
     libs = ["mptcore"]
+    extra_harness_flags = ["-Wl,--wrap=mpt_array_append", "-Wl,--wrap=mpt_array_slice"]
     harness_env = dict(ASAN_ENV, ASAN_OPTIONS=ASAN_ENV["ASAN_OPTIONS"] + ":symbolize=0")
     rule = ("a case = one fragmentation of one byte string + the operations run on it; quick: EVERY string of length <= 3 over "
             "{00,20,27,22,5c,41,0a} x EVERY composition of its length into 1..4 fragments (zero-length fragments included, and the "
             "message without any part) x {length; memchr/memrchr of each alphabet byte and an absent one; memfcn/memrfcn with "
             "isspace/!isspace/isgraph; memstr/memrstr with 3 sets; memtok with 14 token/comment/escape settings; memcpy with 5 "
-            "lengths (-1,0,1,n,n+1) x 5 target shapes; append to an empty and a filled array; array_message with 4 separators; "
-            "read of every length 0..n+1 followed by length and another read; read with NULL target; argv with 5 separators twice} "
+            "lengths (-1,0,1,n,n+1) x 5 target shapes (a zero part count with a positive length only once PATCHED_MEMCPY_NOPARTS "
+            "is set); append to an empty and a filled array; append to arrays that refuse: typed buffer (the real refusal of "
+            "mpt_array_append) and the 1st..4th mpt_array_append call failing (link-time seam) with an empty and a filled array; "
+            "array_message with 4 separators; array_message while the k-th array call (reservation, argument, separator) fails for "
+            "EVERY k up to past the last call, onto a caller's array that holds an earlier result and onto one without buffer; "
+            "array_message without message; backward searches (memrchr/memrfcn/memrstr) over <a part of SSIZE_MAX-d bytes that is "
+            "never looked at> + the message for every d around the overflow edge; in one case of eight the 11 NULL-argument calls; "
+            "read of every length 0..n+1 followed by length and another read; read with NULL target; argv with 5 separators twice; "
+            "for single parts the same cursor operations with a NULL continuation pointer} "
             "(exhaustive), every ring of capacity <= 4 x offset x fill x (off,take) window for message_get, plus every string of length 4 with 5 "
             "random fragmentations and 3000 random strings of length 5..6 with all their operations; thorough: the same exhaustively up to length 4 plus random strings up "
             "to length 24 over the alphabet extended by 09,0d,23,2c; a case is non-trivial when it has >= 2 fragments or an empty one")
     modelled = ("mptcore/message/{message_read,memchr,memfcn,memstr,memtok,memcpy,message_argv,message_append,message_get}.c and "
-                "array/array_message.c transcribed in coq/C17/MessageModel.v; the array is modelled as its content bytes "
-                "(mpt_array_append/slice/clone assumed to succeed, buffer management is C04's subject); EOVERFLOW paths "
-                "(positions > SSIZE_MAX) and NULL data/function arguments (EFAULT) are not modelled")
+                "array/array_message.c transcribed in coq/C17/MessageModel.v, including their refusal branches: mpt_message_append "
+                "and mpt_array_message with an array that refuses after k calls (m_append_lim, m_array_message_lim: rollback "
+                "`_used = olen`, BadOperation/MissingBuffer with the caller's array untouched), the NULL-argument exits (EFAULT) "
+                "and the SSIZE_MAX check of the position sums (pos_acc: size_t addition mod 2^64 compared after every step; driven "
+                "for the backward searches, whose leading parts are never dereferenced). mpt_memcpy is modelled WITH "
+                "docs/C17_memcpy_noparts.diff. The array is modelled as its content bytes + how many further calls it grants "
+                "(buffer management is C04's subject). NOT executed (5 of 338 lines): the EOVERFLOW exits of the FORWARD searches "
+                "(memchr.c:41, memfcn.c:45-46, memtok.c:117: the preceding parts have all been scanned, so more than SSIZE_MAX bytes "
+                "of readable memory would be needed) and memtok.c:112 (dead: C17_memtok_found_unquoted)")
     trusted = ["harness/c17_message.c places every fragment, the continuation iovec array and every target part in its own exact-size "
                "heap block and reads the cursor back from (base,used,cont,clen) without library calls",
+               "harness/c17_message.c: mpt_array_append / mpt_array_slice as called from inside the library are replaced at link time "
+               "(-Wl,--wrap) by a counter that lets the first k calls through to the real functions and then returns NULL without "
+               "touching the array, as a failed allocation does; typed-buffer refusals are the real ones",
                "isspace/isgraph of the C locale are modelled as ASCII ranges"]
     level_text = ("proof: Coq theorems C17_read_flat, C17_length_flat, C17_memchr_flat, C17_memrchr_flat, C17_memfcn_flat, "
-                  "C17_memrfcn_flat, C17_memstr_flat, C17_memrstr_flat, C17_memtok_flat, C17_memcpy_flat_partial (+ C17_memcpy_noparts, "
-                  "C17_memcpy_noparts_refuted), C17_argv_flat, C17_append_flat, C17_get_flat, C17_array_message_flat, C17_history_flat, "
-                  "C17_history_no_fault state, for every list of fragments (any number, any lengths, empty ones anywhere; induction on "
+                  "C17_memrfcn_flat, C17_memstr_flat, C17_memrstr_flat, C17_memtok_flat, C17_memcpy_flat (+ C17_memcpy_noparts), "
+                  "C17_argv_flat, C17_append_flat, C17_get_flat, C17_array_message_flat, C17_append_refusing_flat (+ _none, "
+                  "C17_append_asks_iff_text), C17_array_message_refusing_flat (+ _none), C17_array_message_fits, "
+                  "C17_memtok_found_unquoted, C17_position_sum_checked, C17_rbig_flat, C17_history_flat, C17_history_no_fault, "
+                  "C17_history_side_conditions state, for every list of fragments (any number, any lengths, empty ones anywhere; induction on "
                   "the list, no bound), that each transcribed operation returns exactly what the same operation returns on the "
-                  "concatenated string and leaves a cursor that denotes the flat suffix; the model is tied to the code on every run by "
+                  "concatenated string and leaves a cursor that denotes the flat suffix - including what happens when the target "
+                  "array refuses (all of the flat text or nothing, the same error at the same call as on the flat text) and when a "
+                  "position is not representable (EOVERFLOW exactly then); the model is tied to the code on every run by "
                   "differential execution (exhaustive over all short strings x all fragmentations x all operations) under ASan/UBSan "
                   "with one exact-size heap block per fragment")
     level_note = ("trusted: Coq kernel; hand transcription of the C files (validated by the correspondence run, not verified); "
-                  "extraction and OCaml driver; harness. PARTIAL only for mpt_memcpy: with a zero part COUNT it returns 0 before looking "
-                  "at len, so 'no part' and 'one empty part' (same flat string) differ (0 vs -1/-2); C17_memcpy_flat_partial guards "
-                  "both counts non-zero, C17_memcpy_noparts states the zero-count result, C17_memcpy_noparts_refuted exhibits the "
-                  "witness. The theorems hold for the tree with the four fix: commits (message_append, memtok comment skip, "
-                  "message_argv trim, message_argv quote state). mpt_memtok's string arguments are cut at their NUL inside the model "
-                  "(strlen). Array allocation success assumed; EOVERFLOW/EFAULT paths not modelled. All 18 theorems are closed under "
-                  "the global context (no axioms).")
+                  "extraction and OCaml driver; harness incl. its link-time failure seam. mpt_memcpy: the theorem is now FULL "
+                  "(every pair of fragment lists, zero part counts included) and holds of the code WITH docs/C17_memcpy_noparts.diff "
+                  "(OPEN in /repo: without it a zero part COUNT returns 0 before len is looked at, so 'no part' and 'one empty part' "
+                  "- the same flat string - give 0 resp. -1/-2; replay docs/C17_replay_memcpy_noparts.json); until the patch is "
+                  "committed PATCHED_MEMCPY_NOPARTS in props/c17.py keeps exactly the differing cases (zero count, len > 0) out. "
+                  "Which append of a multi-fragment message an allocation failure hits depends on the fragmentation (one call per "
+                  "non-empty fragment); the specification therefore takes the accept/refuse decision from the run where the "
+                  "interface allows both (0 < grants), and fixes it where it does not (empty text: accept; typed buffer: refuse "
+                  "every non-empty text; unlimited: accept); mpt_array_message makes one call per ARGUMENT, so there the refusing "
+                  "call is determined by the flat text alone and proved so. C17_rbig_flat / the history theorems carry the side "
+                  "condition that part lengths are object sizes (<= SSIZE_MAX); under it the size_t sums cannot wrap unseen "
+                  "(C17_position_sum_checked). The theorems hold for the tree with the four earlier fix: commits (message_append, "
+                  "memtok comment skip, message_argv trim, message_argv quote state). mpt_memtok's string arguments are cut at their "
+                  "NUL inside the model (strlen). Side observation outside the property (same for one fragment): mpt_array_message "
+                  "ignores the BadType of its final mpt_array_clone, so a caller's array that already holds RAW data keeps it while "
+                  "the argument count is returned. All theorems are closed under the global context (no axioms).")
     technique = "Coq proof (fragment list -> flat string, per operation, by induction) + differential correspondence check"
-    assumptions = ["mpt_array_append / mpt_array_slice succeed (allocation)", "positions stay below SSIZE_MAX",
-                   "match function passed to mpt_memfcn is pure"]
+    assumptions = ["part lengths and the leading length of the overflow cases are object sizes (<= SSIZE_MAX)",
+                   "match function passed to mpt_memfcn is pure",
+                   "docs/C17_memcpy_noparts.diff for the zero-part-count cases of mpt_memcpy (left out of the run until committed)"]
+
+    def corpus(self):
+        """a corpus line `@MEMCPY_NOPARTS <case>` is used only when that PATCHED_ switch is on"""
+        out = []
+        for line in DiffProperty.corpus(self):
+            if line.startswith("@"):
+                need, line = line[1:].split(None, 1)
+                if not all(globals().get("PATCHED_" + n, False) for n in need.split(",")):
+                    continue
+            out.append(line)
+        return out
 
     # ---- case structure
     def split(self, case):
